@@ -39,6 +39,7 @@ inductive SendStmt where
   | ifNilConnect                  -- `if this.conn == nil { if err := this.Connect(); err != nil { return … } }`
   | armDeadline                   -- `this.conn.SetWriteDeadline(now + Timeout)` (error: return)
   | bufWrite                      -- `this.wr.Write(…)` (error: return)
+  | recoverSetsErr                -- the deferred recover() assigns the named result `err`
   deriving DecidableEq, Repr
 
 abbrev Prog := List Stmt
@@ -193,12 +194,13 @@ def Progs.cfg (p : Progs) (useQueue : Bool) : Cfg :=
     procLocked := p.procItem.bracketed
     acLocked := p.applyConfig.connectsLocked
     rearm := p.send.contains .armDeadline &&
-      (p.send.dropWhile (· != .armDeadline)).contains .bufWrite }
+      (p.send.dropWhile (· != .armDeadline)).contains .bufWrite
+    recoverReports := p.send.contains .recoverSetsErr }
 
 /-- the programs the model was written against (after fix-D42 and fix-D70) -/
 def assumedProgs : Progs :=
   { sendDirect := [.lock, .deferUnlock, .makeData, .trySend true true, .tryFlush false true, .retNil]
-    send := [.ifNilConnect, .armDeadline, .bufWrite]
+    send := [.recoverSetsErr, .ifNilConnect, .armDeadline, .bufWrite]
     procTop := [.lock, .tryConnect true, .unlock, .getItem]
     procItem := [.lock, .makeData, .trySend true false, .tryFlush true false, .unlock]
     applyConfig := [.lock, .ifChanged, .close, .tryConnect false, .endIf, .unlock, .setCapacity] }
@@ -213,6 +215,101 @@ theorem assumed_proc (env : Env) (len : Nat) :
     interpProc assumedProgs.send assumedProgs.procItem env len = some (procActs env len) := by
   obtain ⟨a, b, c, d, e⟩ := env
   cases a <;> cases b <;> cases c <;> cases d <;> cases e <;> rfl
+
+/-! ### the remaining bodies: which license, which entry point, Connect, Close -/
+
+/-- the license expression of makeData's header -/
+inductive LicExpr where
+  | override                      -- `o.License` (the per-send option)
+  | client                        -- `this.License`
+  | ifOverrideNonEmpty (t e : LicExpr)   -- `if o.License != "" { t } else { e }`
+  | ifOverrideEmpty (t e : LicExpr)      -- `if o.License == "" { t } else { e }`
+  | unknown
+  deriving DecidableEq, Repr
+
+def LicExpr.eval : LicExpr → (ov dflt : Bytes) → Bytes
+  | .override, ov, _ => ov
+  | .client, _, d => d
+  | .ifOverrideNonEmpty t e, ov, d => if ov ≠ [] then t.eval ov d else e.eval ov d
+  | .ifOverrideEmpty t e, ov, d => if ov = [] then t.eval ov d else e.eval ov d
+  | .unknown, _, _ => [0xde, 0xad]
+
+/-- statements of SendFlush -/
+inductive EntryStmt where
+  | ifUseQueue | ifOther | elseBranch | endIf
+  | queuePut (retByResult : Bool)       -- `ret := Queue.Put(…)`; nil / "Enqueue Failed" by its result
+  | sendDirect                          -- `return this.sendDirect(…)`
+  deriving DecidableEq, Repr
+
+inductive Entry where
+  | enq | direct
+  deriving DecidableEq, Repr
+
+/-- which path a call takes: the first `queuePut` / `sendDirect` reached, given `UseQueue`
+    (the `flush` flag is an input on purpose: the result must not depend on it) -/
+def firstEntry (l : List EntryStmt) : Option Entry :=
+  l.findSome? (fun st => match st with
+    | .queuePut true => some .enq
+    | .sendDirect => some .direct
+    | _ => none)
+
+def interpEntry (p : List EntryStmt) (useQueue _flush : Bool) : Option Entry :=
+  match p with
+  | .ifUseQueue :: rest =>
+    firstEntry (if useQueue then rest.takeWhile (· != .elseBranch) else (rest.dropWhile (· != .elseBranch)).drop 1)
+  | .ifOther :: _ => none          -- the path depends on something else than UseQueue
+  | l => firstEntry l
+
+/-- statements of Connect() and Close() -/
+inductive ConnStmt where
+  | retIfConnSet                  -- `if this.conn != nil { return nil }`
+  | dial                          -- `net.DialTimeout` in the loop over servers (failure: next server)
+  | assignConn | assignWrNew      -- `this.conn = client` / `this.wr = bufio.NewWriterSize(client, …)`
+  | connClose                     -- `this.conn.Close()`
+  | assignConnNil                 -- `this.conn = nil`
+  | retIfConnNil                  -- Close(): `if this.conn == nil { return nil }`
+  deriving DecidableEq, Repr
+
+/-- effect of a transcribed Connect / Close body on (conn, wr, connections made so far) -/
+def interpConn : List ConnStmt → (dialOk : Bool) → (Option Nat × Option Nat × Nat) → (Option Nat × Option Nat × Nat)
+  | [], _, st => st
+  | .retIfConnSet :: rest, ok, (c, w, n) => if c.isSome then (c, w, n) else interpConn rest ok (c, w, n)
+  | .retIfConnNil :: rest, ok, (c, w, n) => if c.isNone then (c, w, n) else interpConn rest ok (c, w, n)
+  | .dial :: rest, ok, st => if ok then interpConn rest ok st else st
+  | .assignConn :: rest, ok, (_, w, n) => interpConn rest ok (some n, w, n)
+  | .assignWrNew :: rest, ok, (c, _, n) => interpConn rest ok (c, some n, n + 1)
+  | .connClose :: rest, ok, st => interpConn rest ok st
+  | .assignConnNil :: rest, ok, (_, w, n) => interpConn rest ok (none, w, n)
+
+/-- what the model does for Connect (the guard `conn = none` of its connect actions, `connectNew`) -/
+def modelConnect (dialOk : Bool) (st : Option Nat × Option Nat × Nat) : Option Nat × Option Nat × Nat :=
+  if st.1.isSome then st else if dialOk then (some st.2.2, some st.2.2, st.2.2 + 1) else st
+
+/-- what the model does for Close (`close`, `extClose`, `reconfClose`: conn := none, wr kept) -/
+def modelClose (st : Option Nat × Option Nat × Nat) : Option Nat × Option Nat × Nat := (none, st.2.1, st.2.2)
+
+theorem connectNew_is_modelConnect (s : St) (h : s.conn = none) :
+    (s.connectNew.conn, s.connectNew.wr, s.connectNew.next) = modelConnect true (s.conn, s.wr, s.next) := by
+  simp [modelConnect, St.connectNew, h]
+
+structure Bodies where
+  license : LicExpr
+  headerSrc : Nat
+  headerVer : Nat
+  sendFlush : List EntryStmt
+  sendIsSendFlushFalse : Bool      -- `Send(p, opts…)` is `return this.SendFlush(p, false, opts…)`
+  connect : List ConnStmt
+  close : List ConnStmt
+  deriving DecidableEq, Repr
+
+def assumedBodies : Bodies :=
+  { license := .ifOverrideNonEmpty .override .client
+    headerSrc := 10
+    headerVer := 0
+    sendFlush := [.ifUseQueue, .queuePut true, .elseBranch, .sendDirect, .endIf]
+    sendIsSendFlushFalse := true
+    connect := [.retIfConnSet, .dial, .assignConn, .assignWrNew]
+    close := [.retIfConnNil, .connClose, .assignConnNil] }
 
 /-! ### `expand` (what the driver replays and the recovery theorems run) is these programs -/
 
